@@ -34,7 +34,7 @@ THEOREMS = {
             "finished_no_more", "aggregates_perm", "rebuild_total_perm", "perm_observables_step_partial", "perm_invariant_run",
             "Layout.writer_reader_agree", "Layout.blocks_inside", "Layout.blocks_disjoint", "Layout.blocks_cover", "Layout.blocks_partition"],
     "C20": ["psi_above_one_rejected", "schedule_outside_horizon_rejected", "excess_capital_rejected", "negative_capacity_rejected",
-            "params_ok", "init_econ_ok", "tracker_init_ok", "inv_step", "step_quantities_nonneg", "no_silent_failure", "inv_reach"],
+            "event_tau_rejected", "event_schedule_rejected", "event_negative_impact_rejected", "event_empty_impact_rejected", "event_excess_loss_rejected", "event_shares_rejected", "event_accepted", "params_ok", "init_econ_ok", "tracker_init_ok", "inv_step", "step_quantities_nonneg", "no_silent_failure", "inv_reach"],
     "C02": ["specDemand_eq", "step_refines_spec", "nextStep_econ", "Records.phase_order"],
     "C19": ["lifecycle_shift", "recoverOne_shift", "eventsPost_shift", "eventsPre_shift", "shift_step", "overprod_identity_at_rest",
             "shift_step_early", "shift_run_partial", "equilibrium_step_exact", "shift_invariance"],
